@@ -268,6 +268,14 @@ def stdnorm_obligations(S, sizes):
                 if srt:
                     for i in range(n):
                         obls.append(pproof.PObligation(tag + '/rank%d' % i, 'post', 'sorted input: rank of element %d is %d' % (i, i), hyp, rs[i].val == i, names))
+                else:
+                    # in terms of the data: equal values share a score, a larger value has a larger score (ranks are tie-aware)
+                    for i in range(n):
+                        for j in range(n):
+                            if i < j:
+                                obls.append(pproof.PObligation(tag + '/data-order-%d-%d' % (i, j), 'post', 'scores follow the data ranks: equal values share a score, a larger value scores higher (elements %d, %d)' % (i, j), hyp,
+                                                               z3.And(z3.Implies(xs[i].val < xs[j].val, us[i].val < us[j].val), z3.Implies(xs[i].val == xs[j].val, us[i].val == us[j].val),
+                                                                      z3.Implies(xs[i].val > xs[j].val, us[i].val > us[j].val)), names))
     return obls, npaths
 
 
@@ -440,6 +448,11 @@ def monitors_child(rec):
                 ok = np.all(np.isfinite(u)) and all((rk[a] < rk[b]) == (u[a] < u[b]) for a, b in zip(o[:-1], o[1:])) and all((x[a] < x[b]) <= (u[a] < u[b]) for a in range(min(n, 12)) for b in range(min(n, 12)))
                 if not ok:
                     bad += 1; _fail(rec, 'standard_normal', 'scores: not a strictly increasing function of the ranks', x=x.tolist()[:30], cst=c, method=meth)
+        # data that happen to be in increasing order, with ties, NOT declared sorted: ties still share a score
+        xt = np.sort(nrng.integers(0, 3, size=n).astype(float)); u, rk = S.standard_normal(xt, 0.3); ev += 1
+        u = np.asarray(u)
+        if not all((xt[a] == xt[b]) == (u[a] == u[b]) and (xt[a] < xt[b]) == (u[a] < u[b]) for a in range(n) for b in range(n)):
+            bad += 1; _fail(rec, 'standard_normal', 'ordered-ties: equal values of an (undeclared) ordered vector get different scores', x=xt.tolist()[:30])
         xs = np.sort(x); u, rk = S.standard_normal(xs, 0.3, True); ev += 1
         if not (np.all(np.diff(u) > 0) and list(rk) == list(range(n))):
             bad += 1; _fail(rec, 'standard_normal', 'sorted: scores of sorted data not increasing', x=xs.tolist()[:30])
